@@ -12,9 +12,16 @@ import (
 	"github.com/microsoft/yardl/tooling/internal/validation"
 )
 
+// A computed field as resolved for one record. The instances of a generic record share their
+// ComputedField nodes, and what a field resolves to depends on the type arguments.
+type rewrittenFieldKey struct {
+	record *RecordDefinition
+	field  *ComputedField
+}
+
 type ComputedFieldScope struct {
 	Record          *RecordDefinition
-	RewrittenFields map[*ComputedField]*ComputedField
+	RewrittenFields map[rewrittenFieldKey]*ComputedField
 	CurrentFields   []*ComputedField
 	Variables       []*DeclarationPattern
 }
@@ -34,13 +41,13 @@ func resolveComputedFields(env *Environment, errorSink *validation.ErrorSink) *E
 			}
 			scope := ComputedFieldScope{
 				Record:          t,
-				RewrittenFields: make(map[*ComputedField]*ComputedField),
+				RewrittenFields: make(map[rewrittenFieldKey]*ComputedField),
 			}
 
 			return self.DefaultRewrite(node, &scope)
 		case *ComputedField:
 
-			if rewritten, ok := context.RewrittenFields[t]; ok {
+			if rewritten, ok := context.RewrittenFields[rewrittenFieldKey{context.Record, t}]; ok {
 				return rewritten
 			}
 
@@ -58,7 +65,7 @@ func resolveComputedFields(env *Environment, errorSink *validation.ErrorSink) *E
 			}
 
 			rewritten := self.DefaultRewrite(node, &ComputedFieldScope{context.Record, context.RewrittenFields, append(context.CurrentFields, t), context.Variables})
-			context.RewrittenFields[t] = rewritten.(*ComputedField)
+			context.RewrittenFields[rewrittenFieldKey{context.Record, t}] = rewritten.(*ComputedField)
 			return rewritten
 		case *TypeConversionExpression:
 			t = self.DefaultRewrite(t, context).(*TypeConversionExpression)
